@@ -97,6 +97,12 @@ impl Check for Spending {
     fn components(&self) -> serde_json::Value {
         serde_json::json!({"real": ["examples/multisig-smart-account/spending-limit-policy (from source)", "stellar_accounts::policies::spending_limit::*"], "stub": ["Acct forwarder standing in for the smart account", "Wallet"]})
     }
+    fn dup_ok(&self, _s: &Step) -> bool {
+        true
+    }
+    fn reorder_ok(&self) -> bool {
+        true
+    }
     fn generate(&self, rng: &mut Rng, tier: Tier) -> (Cfg, std::vec::Vec<Step>) {
         let cfg = Cfg { start_ledger: 1 + rng.below(200) as u32 + if rng.chance(30) { rng.below(1_000_000) as u32 } else { 0 } };
         let nsteps = if tier == Tier::Quick { 25 + rng.below(50) } else { 25 + rng.below(120) } as usize;
